@@ -150,6 +150,16 @@ def handle (j : Json) : Except String Json := do
     if !e.targetsOk then pure (jErr "KeyError") else
     let ts := toTriples p l e
     pure (Json.mkObj [("triples", jList jTriple ts), ("dec", jRes jPen (fromTriples ts))])
+  | "churn" => do
+    -- a sequence of different graphs, each through all three codecs (the model is pure: no state between them)
+    let es ← (← getArr j "docs").mapM ofEds
+    let o ← ofOpts (← j.getObjVal? "opts")
+    if es.any (fun e => !e.targetsOk) then pure (jErr "KeyError") else
+    pure (jList (fun e =>
+      let d := toDict o.properties o.lnk e
+      Json.mkObj [("text", cps (textE o e)),
+                  ("dict", Json.mkObj [("top", optCps d.top), ("nodes", jList jJNode d.nodes)]),
+                  ("triples", jList jTriple (toTriples o.properties o.lnk e))]) es)
   | "triples" => do
     let ts ← (← getArr j "triples").mapM ofTriple
     pure (jRes jPen (fromTriples ts))
